@@ -122,6 +122,32 @@ func c18Values(r *core.Rand) []sharedValue {
 	if m, err := data.GoMapToMapping(lib.MappingToGo(mm)); err == nil {
 		add("Mapping/constructed", m)
 	}
+	// mappings the lenient parser hands back together with errors or warnings (declared size larger
+	// than the data, junk inside the declared extent, more pairs than the limit): their stored size
+	// disagrees with their pairs, and they are shared like any other value
+	body := mm.Body()
+	lenient := [][]byte{
+		append([]byte{byte((len(body) + 9) >> 8), byte(len(body) + 9)}, body...),
+		append(append([]byte{byte((len(body) + 3) >> 8), byte(len(body) + 3)}, body...), 0x07, 'x', 'y'),
+		gen.Corners(core.NewRand(1, "c18-corners"))[1].Bytes,
+	}
+	{
+		var many []byte
+		for j := 0; j < 1003; j++ {
+			k := fmt.Sprintf("%04d", j)
+			many = append(many, byte(len(k)))
+			many = append(many, k...)
+			many = append(many, '=', 0, ';')
+		}
+		lenient = append(lenient, append([]byte{byte(len(many) >> 8), byte(len(many))}, many...))
+	}
+	for i, raw := range lenient {
+		m, _, errs := data.ReadMapping(raw)
+		if len(errs) == 0 || len(m.Values()) == 0 {
+			continue
+		}
+		add(fmt.Sprintf("Mapping/parsed-with-errors%d", i), &m, func() string { g, _ := m.ToGoMap(); return fmt.Sprint(len(g), len(m.Data())) })
+	}
 	// router address / router info
 	am := gen.RouterAddress(r)
 	am.Style = []byte("NTCP2")
